@@ -102,26 +102,30 @@ _add(PropertySpec(
 
 CE = "superrec2.compute.exhaustive"
 _add(PropertySpec(
-    "C01", files=["compute_super", "thl"],
+    "C01", files=["compute_super", "thl", "exhaustive"],
     targets=[f"{CR}:_compute_thl_try_speciation", f"{CR}:_compute_thl_try_duplication_transfer", f"{CR}:_compute_thl_table", "lemma_thl_lower_bound", f"{DP}:Table.entry",
+             f"{CE}:reconcile_exhaustive",
              f"{DP}:Entry.update", f"{DP}:Entry.combine", f"{DP}:Entry.__iter__",
              f"{MRC}:ReconciliationOutput.node_event", f"{MRC}:ReconciliationOutput._cost_rec", f"{MRC}:ReconciliationOutput.cost",
              f"{TR}:LowestCommonAncestor.is_ancestor_of", f"{TR}:LowestCommonAncestor.distance"],
     level="proof", standins=["reconciliation:thl-exh-vs-brute-force", "reconciliation:F-COHERENCE-cost-witness", "thl-step-functions:recurrence-contract-at-runtime", "dynamic_programming:Table-proxies"],
     standin_for={f"{CR}:_compute_thl_try_speciation": "thl-step-functions:recurrence-contract-at-runtime",
-                 f"{CR}:_compute_thl_try_duplication_transfer": "thl-step-functions:recurrence-contract-at-runtime"},
+                 f"{CR}:_compute_thl_try_duplication_transfer": "thl-step-functions:recurrence-contract-at-runtime",
+                 f"{CE}:reconcile_exhaustive": ("reconciliation:thl-exh-vs-brute-force", "exh/")},
     technique="contract-based deductive verification of the two THL step functions (Bellman recurrence of the documented event model, value and ALL / ANY tag clauses, frame) "
               "from the real AST, of the entry operations they use and of the cost evaluator the results are ranked by; table fill / decode / re-ranking / exhaustive enumerator: "
               "bounded stand-in against an independent brute-force enumeration and recount",
-    not_decided=["_decode_thl_table (the value is attained by a decoded reconciliation, coherent region), reconcile_thl (re-ranking over root species), reconcile_exhaustive and generate_all are NOT discharged: bounded stand-in only",
+    not_decided=["_decode_thl_table (the value is attained by a decoded reconciliation, coherent region), reconcile_thl (re-ranking over root species) and generate_all (WHICH reconciliations are enumerated) are NOT discharged: bounded stand-in only; "
+                 "reconcile_exhaustive is proved relative to the assumed enumerator (it keeps exactly the cheapest enumerated outputs)",
                  "Table / TableProxy / EntryProxy: ASSUMED contracts over an abstract cell map (validated by the bounded Table-proxies stand-in)"],
 ))
 _add(PropertySpec(
-    "C05", files=["compute_super", "thl"],
+    "C05", files=["compute_super", "thl", "exhaustive"],
     targets=[f"{DP}:Entry.update", f"{DP}:Entry.combine", f"{DP}:Entry.__iter__", f"{DP}:Entry.infos",
-             f"{CR}:_compute_thl_try_speciation", f"{CR}:_compute_thl_try_duplication_transfer", f"{DP}:Table.entry"],
+             f"{CR}:_compute_thl_try_speciation", f"{CR}:_compute_thl_try_duplication_transfer", f"{DP}:Table.entry", f"{CE}:reconcile_exhaustive"],
     level="proof", standin_for={f"{CR}:_compute_thl_try_speciation": "thl-step-functions:recurrence-contract-at-runtime",
-                                f"{CR}:_compute_thl_try_duplication_transfer": "thl-step-functions:recurrence-contract-at-runtime"},
+                                f"{CR}:_compute_thl_try_duplication_transfer": "thl-step-functions:recurrence-contract-at-runtime",
+                                f"{CE}:reconcile_exhaustive": ("reconciliation:thl-exh-vs-brute-force", "exh/")},
     standins=["reconciliation:thl-exh-vs-brute-force", "reconciliation:F-COHERENCE-witnesses", "labelled-solvers:all-any-vs-optimal-set",
                             "thl-step-functions:recurrence-contract-at-runtime", "spfs-entry:recurrence-contract-at-runtime", "uspfs-entry:recurrence-contract-at-runtime"],
     technique="contract-based deductive verification of the tag clauses of Entry.update / combine / __iter__ (ALL keeps exactly the optimal tags, ANY exactly one); "
